@@ -192,3 +192,19 @@ func ZZ_C29() {
 	vr.Assert(node.checkConsensusAcceptHour(now) == (hour >= 13 && hour <= 19), "accept-window-13-19")
 	vr.Assert(node.checkConsensusPledgeHour(now) == !((hour >= 7 && hour <= 9) || (hour >= 13 && hour <= 19)), "pledge-window")
 }
+
+// ZZ_C29_hours: the pledge / accept hour windows at fixed offsets inside any day after the
+// (symbolic) epoch: window edges, one nanosecond around them, and mid-hour instants.
+func ZZ_C29_hours() {
+	node := &Node{}
+	node.Epoch = vr.U64()
+	vr.Assume(node.Epoch > 0 && node.Epoch < 1<<61)
+	offs := []uint64{6*3600e9 + 3599e9, 7 * 3600e9, 9*3600e9 + 1800e9, 9*3600e9 + 3599999999999, 10 * 3600e9, 12*3600e9 + 1, 13 * 3600e9, 19*3600e9 + 1, 19*3600e9 + 1800e9, 20 * 3600e9}
+	off := offs[vr.Choose(0, len(offs)-1)]
+	days := vr.U16()
+	probe := node.Epoch + uint64(days)*OneDay + off
+	ph := off / 3600000000000
+	vr.Assert(node.checkConsensusPledgeHour(probe) == !((ph >= 7 && ph <= 9) || (ph >= 13 && ph <= 19)), "pledge-window-at-fixed-offsets")
+	vr.Assert(node.checkConsensusAcceptHour(probe) == (ph >= 13 && ph <= 19), "accept-window-at-fixed-offsets")
+	vr.Cover("hours")
+}
